@@ -127,6 +127,22 @@ def run(ctx):
             ctx.bump('out.%s%s' % (fmt, '.stale' if stale else ''))
             for k_, v_ in opts.items():
                 ctx.bump('opt.%s=%s' % (k_, v_))
+            # row labels: the default 0..n-1, other unique labels (a filtered frame), or repeated labels
+            # (pd.concat without ignore_index); records are records whatever they are called
+            labels = list(range(nrows))
+            lab = rng.random()
+            if lab < 0.15 and nrows:
+                labels = rng.sample(range(3 * nrows + 3), nrows)
+            elif lab < 0.3 and nrows > 1:
+                labels = [rng.randrange(max(1, nrows // 2)) for _ in range(nrows)]
+            if labels != list(range(nrows)):
+                df.index = labels
+                ctx.bump('labels.unique' if len(set(labels)) == nrows else 'labels.repeated')
+            rownum = rng.random() < 0.35
+            if rownum:
+                opts['rownumber_is_index'] = False
+            desc['row_labels'] = labels if labels != list(range(nrows)) else 'default'
+            desc['options'] = dict(opts)
             work_df = df.copy()
             before = df.copy()
             err = io.StringIO()
@@ -174,9 +190,15 @@ def run(ctx):
                         ctx.fail(desc, 'passing/failing records %r/%r, rows %d, records with a violated constraint %d'
                                  % (v.detection.n_passing_records, v.detection.n_failing_records, nrows, failing_want))
                     rows = list(range(nrows)) if opts['write_all'] else [r for r in range(nrows) if nfail_want[r] > 0]
-                    if list(det.index) != rows:
-                        ctx.fail(desc, 'output frame holds records %r, expected %r (write_all=%r)'
-                                 % (list(det.index)[:20], rows[:20], opts['write_all']))
+                    # the records are identified by their labels: as the frame's index, or (when an index column was
+                    # asked for and written) in that column
+                    got_labels = list(det.index)
+                    for cname in ('Index', 'RowNumber'):
+                        if opts['index'] and cname in det:
+                            got_labels = [x if cname == 'Index' else labels[int(x) - 1] for x in det[cname]]
+                    if got_labels != [labels[r] for r in rows]:
+                        ctx.fail(desc, 'output frame holds the records labelled %r, expected %r (positions %r, write_all=%r)'
+                                 % (got_labels[:20], [labels[r] for r in rows][:20], rows[:20], opts['write_all']))
                     else:
                         got_nf = [int(x) for x in det['n_failures']]
                         if got_nf != [nfail_want[r] for r in rows]:
@@ -209,6 +231,16 @@ def run(ctx):
                                         [nfail_want[r] for r in rows]:
                                     ctx.fail(desc, 'output file n_failures %r, expected %r'
                                              % (list(od['n_failures'])[:20], [nfail_want[r] for r in rows][:20]))
+                                elif opts['index'] and 'RowNumber' in od and \
+                                        [int(x) for x in od['RowNumber']] != [r + 1 for r in rows]:
+                                    ctx.fail(desc, 'output file RowNumber column says %r, the records written are rows %r'
+                                             % ([int(x) for x in od['RowNumber']][:20], [r + 1 for r in rows][:20]))
+                                elif opts['index'] and 'Index' in od and \
+                                        [str(x) for x in od['Index']] != [str(labels[r]) for r in rows]:
+                                    ctx.fail(desc, 'output file Index column says %r, the records written are labelled %r'
+                                             % (list(od['Index'])[:20], [labels[r] for r in rows][:20]))
+                                elif opts['index'] and fmt == 'csv' and not ('Index' in od or 'RowNumber' in od):
+                                    ctx.fail(desc, 'an index column was requested but the output file has columns %r' % list(od)[:8])
                             except Exception as e:
                                 ctx.fail(desc, 'output file unreadable: %s' % str(e)[:200])
             # ---- input unchanged unless in place
